@@ -37,6 +37,10 @@ def main():
     for p in props:
         if p in served and p in claimed:
             c = claimed[p]
+            lvl = "proof"
+            evp = os.path.join(VERIF, "evidence", "%s.json" % p)
+            if os.path.exists(evp):
+                lvl = json.load(open(evp)).get("level", "proof")
             checks.append({
                 "property_id": p,
                 "quick_cmd": "./check %s --tier quick" % p,
@@ -44,7 +48,7 @@ def main():
                 "evidence_file": "/verif/evidence/%s.json" % p,
                 "replay_cmd_template": "./check replay {path}",
                 "engine": "pyvc",
-                "level_claimed": {"category": "proof", "text": c["text"], "design_ref": c.get("design_ref", "DESIGN.md §4 " + p)},
+                "level_claimed": {"category": lvl, "text": c["text"], "design_ref": c.get("design_ref", "DESIGN.md §4 " + p)},
                 "level_note": c["note"],
                 "technique": c.get("technique", TECH),
             })
